@@ -136,6 +136,8 @@ def run(tier, seed, replay=None):
                        "time-out); the same manipulations are applied to real plaintext created cells at every hop position "
                        "with real DH; TLC validates each execution (NoForeignKey, KeyAgreement, AnswerMustMatch, hops immutable) "
                        "and the harness probes the real session keys; non-trivial = distinct executions with a manipulation")
+    if replay and K.replay_file(ctx, PID, replay, NONTRIVIAL):
+        return ctx.finish()
     ctx.assumptions += ["X25519 / HMAC / HKDF idealised in the spec; the probe compares real key bytes",
                         "encrypted extended answers cannot be rewritten by a network attacker (only the plaintext created leg)",
                         "a malicious relay ON the path is represented by manipulations of the created it forwards"]
